@@ -102,6 +102,11 @@ func (s *Sim) RunQueryScript(b *WB, c *Compiled, o *Op) (fd *Finding) {
 			}
 			refOrd = append(refOrd, ord)
 		}
+		// "count after the loop": Count called for the first time when the iteration has finished
+		if cnt := q0.Count(); cnt != len(ref) {
+			fd = finding(CatScan, "%s: %s: Count() called after the loop finished = %d, the loop visited %d entities", b.Name, what, cnt, len(ref))
+			return
+		}
 		if b == s.B {
 			s.LastQueryOrder = ref
 		}
